@@ -554,6 +554,53 @@ def run_case(c, space):
                 outs_np=outs_np, np_after=np_after, kw=kw, space=space)
 
 
+def weighting_problem(c, r, a, b):
+    """Documented weight propagation (ODL's docs/tests, independent of the Lean model):
+    tensor results: floating dtype and unchanged shape -> the weighting of the element's
+    space; changed shape -> unweighted with the same exponent; non-floating -> default.
+    Discretized results over default-weighted spaces: the weighting constant is the cell
+    volume of the result's partition."""
+    from odl.space.weighting import ConstWeighting
+    me = dispatcher(r)
+    if kind_of(b) != c.kind or kind_of(me) != c.kind:
+        return None
+    floating = np.asarray(a).dtype.kind in 'fc'
+    w = b.space.weighting
+    if c.kind == 'tensor':
+        if c.method == '__call__' and c.ufunc.nout == 2:
+            return None  # two-output ufuncs: no propagation rule is documented
+        if not floating:
+            ok = isinstance(w, ConstWeighting) and w.const == 1.0 and w.exponent == 2.0
+            return None if ok else 'non-floating result has weighting {}'.format(wdesc(w))
+        if tuple(b.shape) == tuple(me.shape):
+            ok = (w == me.space.weighting)
+            return None if ok else 'weighting {} not propagated (got {})'.format(
+                wdesc(me.space.weighting), wdesc(w))
+        ok = isinstance(w, ConstWeighting) and w.const == 1.0 and \
+            w.exponent == me.space.exponent
+        return None if ok else 'shape changed: expected unweighted with exponent {}, got {}' \
+            .format(me.space.exponent, wdesc(w))
+    if c.kind == 'discr':
+        if not floating:
+            return None
+        srcs = [o for o in r['ops'] if kind_of(o) == 'discr']
+        default = all(isinstance(o.space.weighting, ConstWeighting) and
+                      o.space.weighting.const == o.space.cell_volume for o in srcs)
+        if c.method == '__call__' and c.ufunc.nout == 2:
+            return None  # documented in the code: no weighting/exponent for two outputs
+        if w.exponent != me.space.exponent:
+            return 'exponent {} became {}'.format(me.space.exponent, w.exponent)
+        if c.method in ('__call__', 'accumulate'):
+            ok = (w == me.space.weighting)
+            return None if ok else 'weighting {} not propagated (got {})'.format(
+                wdesc(me.space.weighting), wdesc(w))
+        if default:
+            ok = isinstance(w, ConstWeighting) and w.const == b.space.cell_volume
+            return None if ok else 'weighting {} is not the cell volume {} of the result ' \
+                'partition'.format(wdesc(w), b.space.cell_volume)
+    return None
+
+
 def oracle(r):
     """Independent of the model: compare the real call with NumPy on the plain arrays.
     Returns list of (code, text)."""
@@ -640,6 +687,9 @@ def oracle(r):
                 base_dtype(b.space), a.dtype)))
         if type(b.space) is not type(space):
             problems.append(('space-class', type(b.space).__name__))
+        wp = weighting_problem(c, r, a, b)
+        if wp:
+            problems.append(('weighting', wp))
         if k == 'discr' and c.kind == 'discr':
             part = b.space.partition
             sp = dispatcher(r).space.partition
@@ -845,6 +895,10 @@ def enumerate_cases(ctx, thorough, zoo):
                                    {'dtype': dt}, variant)
                         if u.nout == 1 and dt != 'float32':
                             yield Case('ufunc', skey, kind, uname, u, '__call__', ops, 'e',
+                                       {'dtype': dt}, variant)
+                        if u.nout == 1 and dt == 'float32' and kind != 'power':
+                            # out of a wider dtype: written through writable_array's temporary
+                            yield Case('ufunc', skey, kind, uname, u, '__call__', ops, 'f',
                                        {'dtype': dt}, variant)
             if u.nin != 2 or u.nout != 1:
                 if uname in ('negative', 'modf', 'sqrt', 'clip'):
